@@ -241,3 +241,53 @@ fn vc13_transmit_window1() {
     kani::cover!(want == 1, "sent");
     leak(pk); leak(rig);
 }
+
+fn data_chunk_layout<const N: usize>() {
+    let rig = Rig::new(true, SctpState::Connected);
+    let pl: [u8; N] = kani::any();
+    let (sid, ssn, ppid, tsn, flags): (u16, u16, u32, u32, u8) = (kani::any(), kani::any(), kani::any(), kani::any(), kani::any());
+    let c = rig.inner().create_data_chunk(sid, ppid, &pl, ssn, flags, tsn);
+    let want_len = 16 + N;
+    assert!(c.len() == (want_len + 3) & !3, "DATA chunk not padded to a 32-bit boundary");
+    assert!(c[0] == CT_DATA && c[1] == flags && u16::from_be_bytes([c[2], c[3]]) as usize == want_len, "chunk length field must exclude the padding");
+    assert!(u32::from_be_bytes([c[4], c[5], c[6], c[7]]) == tsn && u16::from_be_bytes([c[8], c[9]]) == sid && u16::from_be_bytes([c[10], c[11]]) == ssn && u32::from_be_bytes([c[12], c[13], c[14], c[15]]) == ppid);
+    assert!(same(&c[16..16 + N], &pl));
+    let mut i = want_len; while i < c.len() { assert!(c[i] == 0, "padding bytes must be zero"); i += 1; }
+    leak(c); leak(rig);
+}
+
+// @h name=vc13_data_chunk_layout tier=quick timeout=900
+// @fn SctpInner::create_data_chunk
+// @stub std::time::Instant::now -> fixed instant
+// @bound payloads of 0, 1, 2, 3 and 5 bytes (every padding residue), all header fields symbolic
+// @oracle RFC 4960 3.3.1 layout: type 0, flags, length = 16 + payload (padding excluded), TSN, stream id, SSN, PPID, payload, zero padding to a 32-bit boundary
+#[kani::proof]
+#[kani::unwind(8)]
+#[kani::stub(std::time::Instant::now, now_stub)]
+#[kani::stub(std::backtrace::Backtrace::capture, bt_stub)]
+fn vc13_data_chunk_layout() {
+    let k: u8 = kani::any();
+    match k % 5 { 0 => data_chunk_layout::<0>(), 1 => data_chunk_layout::<1>(), 2 => data_chunk_layout::<2>(), 3 => data_chunk_layout::<3>(), _ => data_chunk_layout::<5>() }
+    kani::cover!(k % 5 == 4, "5-byte payload");
+}
+
+// @h name=vc13_advertised_rwnd tier=quick timeout=900
+// @fn SctpInner::advertised_rwnd
+// @stub std::time::Instant::now -> fixed instant
+// @bound symbolic number of buffered bytes, empty reorder queue
+// @oracle the advertised window is the configured window minus what is buffered, never negative (0 when more is buffered than configured)
+#[kani::proof]
+#[kani::unwind(4)]
+#[kani::stub(std::time::Instant::now, now_stub)]
+#[kani::stub(std::backtrace::Backtrace::capture, bt_stub)]
+fn vc13_advertised_rwnd() {
+    let rig = Rig::new(true, SctpState::Connected);
+    let inner = rig.inner();
+    let used: usize = kani::any();
+    inner.used_rwnd.store(used, Ordering::Relaxed);
+    let a = inner.advertised_rwnd();
+    let want = inner.local_rwnd.saturating_sub(used);
+    assert!(a as usize == if want > u32::MAX as usize { 0 } else { want });
+    kani::cover!(a == 0 && used > inner.local_rwnd, "over-full buffer advertises zero");
+    leak(rig);
+}
